@@ -105,6 +105,13 @@ class Check(object):
             self.error("%s: %s" % (label, e))
         except RecursionError as e:
             self.error("%s: recursion limit (%s)" % (label, e))
+        except Exception as e:
+            if type(e).__name__ == "RaiseSignal":
+                node = getattr(e, "node", None)
+                self.error("%s: the analysed code raises %r (line %s) on the abstract input and nothing handles it"
+                           % (label, e.exc, getattr(node, "lineno", "?")))
+            else:
+                raise
         return None
 
     def assume(self, text):
